@@ -149,6 +149,42 @@ def pat_subsumes(p, q):
     return False
 
 
+def conjuncts_of(c):
+    out, stack = [], [c]
+    while stack:
+        x = H.strip(stack.pop())
+        if H.kind(x) == "Binary" and x.get("op") == "And":
+            stack += [x["r"], x["l"]]
+        else:
+            out.append(x)
+    return out
+
+
+def rule_test(c, is_rule_expr):
+    """(kind, polarity) when c tests `<rule expression> == Rule::X` / `!=` / `matches!(.., Rule::X | ..)` / `let Rule::X = ..`; else None"""
+    c = H.strip(c)
+    neg = False
+    while H.kind(c) == "Unary" and c.get("op") == "Not":
+        neg = not neg
+        c = H.strip(c["e"])
+    if H.kind(c) == "Binary" and c["op"] in ("Eq", "Ne"):
+        for a, b in ((c["l"], c["r"]), (c["r"], c["l"])):
+            if is_rule_expr(a) and "::Rule::" in (H.path_def(b) or ""):
+                return ({H.last(H.path_def(b))}, (c["op"] == "Eq") != neg)
+    if H.kind(c) == "LetExpr" and is_rule_expr(c["init"]):
+        vs = {H.last(v) for v in H.pat_variants(c["pat"]) if "::Rule::" in v}
+        if vs:
+            return (vs, not neg)
+    if H.kind(c) == "Match" and len(c["arms"]) == 2 and is_rule_expr(c["scrut"]):
+        yes = [a for a in c["arms"] if H.strip(a["body"]).get("v") in (True, "true")]
+        if len(yes) == 1 and yes[0].get("guard") is None:
+            vs = {H.last(v) for v in H.pat_variants(yes[0]["pat"]) if "::Rule::" in v}
+            if vs:
+                return (vs, not neg)
+    return None
+
+
+
 class Resolver:
     def __init__(self, crate, G, fn):
         self.crate, self.G, self.fn = crate, G, fn
@@ -174,10 +210,10 @@ class Resolver:
                 a = f.node["arms"][f.extra]
                 if name in H.pat_binds(a["pat"]):
                     return ("armbind", f.node["scrut"], path[:i])
-            if f.kind == "if":
-                c = H.strip(f.node["cond"])
-                if H.kind(c) == "LetExpr" and f.extra is True and name in H.pat_binds(c["pat"]):
-                    return ("iflet", c["init"], path[:i])
+            if f.kind == "if" and f.extra is True:
+                for c in conjuncts_of(f.node["cond"]):
+                    if H.kind(c) == "LetExpr" and name in H.pat_binds(c["pat"]):
+                        return ("iflet", c["init"], path[:i])
         for i, p in enumerate(self.fn.get("params", [])):
             if name in H.pat_binds(p):
                 return ("param", i)
@@ -343,6 +379,67 @@ class Resolver:
             return None
         return None
 
+    def constraints(self, l, path):
+        """(kinds l is known to have | None, kinds it is known not to have) from the conditions around the site"""
+        names = set()
+        for f in path:
+            if f.kind == "block":
+                for st in f.node["stmts"][:f.extra]:
+                    if st["k"] == "Let" and H.kind(st["pat"]) == "Bind" and st.get("init") is not None:
+                        i_ = H.strip(st["init"])
+                        if H.kind(i_) == "MethodCall" and i_["name"] == "as_rule" and H.path_local(i_["recv"]) == l:
+                            names.add(st["pat"]["name"])
+
+        def is_rule_expr(x):
+            x = H.strip(x)
+            if H.kind(x) == "MethodCall" and x["name"] == "as_rule" and H.path_local(x["recv"]) == l:
+                return True
+            return H.path_local(x) in names
+        allowed, excluded = None, set()
+
+        def add(t):
+            nonlocal allowed
+            vs, pol = t
+            if pol:
+                allowed = set(vs) if allowed is None else allowed & vs
+            else:
+                excluded.update(vs)
+        for f in path:
+            if f.kind == "arm" and is_rule_expr(f.node["scrut"]):
+                arms = f.node["arms"]
+                vs = arm_variants(arms[f.extra], "::Rule::")
+                if vs:
+                    add((vs, True))
+                else:
+                    for a in arms[:f.extra]:
+                        av = arm_variants(a, "::Rule::")
+                        if av and a.get("guard") is None:
+                            excluded.update(av)
+            elif f.kind == "if":
+                for c in conjuncts_of(f.node["cond"]):
+                    t = rule_test(c, is_rule_expr)
+                    if t is not None:
+                        if f.extra is True:
+                            add(t)
+                        elif len(conjuncts_of(f.node["cond"])) == 1:
+                            add((t[0], not t[1]))
+            elif f.kind == "block":
+                for st in f.node["stmts"][:f.extra]:
+                    if st["k"] in ("Expr", "Semi"):
+                        e = H.strip(st["e"])
+                        if H.kind(e) == "If" and e.get("else") is None and diverges(e["then"]):
+                            cs = conjuncts_of(e["cond"])
+                            if len(cs) == 1:
+                                t = rule_test(cs[0], is_rule_expr)
+                                if t is not None:
+                                    add((t[0], not t[1]))
+                        if H.kind(e) == "Match" and is_rule_expr(e["scrut"]):
+                            for a in e["arms"]:
+                                av = arm_variants(a, "::Rule::")
+                                if av and a.get("guard") is None and diverges(a["body"]):
+                                    excluded.update(av)
+        return allowed, excluded
+
     def same_binding(self, l, p1, p2):
         b1, b2 = self.binding(l, p1), self.binding(l, p2)
         if b1 is None or b2 is None or b1[0] != b2[0]:
@@ -363,25 +460,62 @@ class Resolver:
             sp = getattr(self, "site_path", None)
             if sp is not None and sp is not path and len(sp) > len(path) and self.same_binding(l, path, sp):
                 path = sp
-            # an enclosing explicit arm of `match l.as_rule()`
-            for i in range(len(path) - 1, -1, -1):
-                f = path[i]
-                if f.kind == "arm":
-                    sc = H.strip(f.node["scrut"])
-                    if H.kind(sc) == "MethodCall" and sc["name"] == "as_rule" and H.path_local(sc["recv"]) == l:
-                        vs = arm_variants(f.node["arms"][f.extra], "::Rule::")
-                        if vs:
-                            return vs
-                if f.kind == "if":
-                    c = H.strip(f.node["cond"])
-                    if f.extra is True and H.kind(c) == "Binary" and c["op"] == "Eq":
-                        for a, b in ((c["l"], c["r"]), (c["r"], c["l"])):
-                            a = H.strip(a)
-                            if H.kind(a) == "MethodCall" and a["name"] == "as_rule" and H.path_local(a["recv"]) == l and "::Rule::" in (H.path_def(b) or ""):
-                                return {H.last(H.path_def(b))}
-            rl = self.rule_local_conditions(l, path)
-            if rl:
-                return rl
+            allowed, excluded = self.constraints(l, path)
+            if allowed is not None:
+                return allowed - excluded
+            base = self._pair_of_binding(l, path, depth)
+            return None if base is None else base - excluded
+
+        if k == "MethodCall":
+            if e["name"] in PAIR_PASS or e["name"] in ("ok_or_else", "ok_or", "cloned", "copied"):
+                return self.pair(e["recv"], path, depth + 1)
+            if e["name"] == "filter" and e.get("args") and H.kind(H.strip(e["args"][0])) == "Closure":
+                clo = H.strip(e["args"][0])
+                ps = [bn for p_ in clo.get("params", []) for bn in H.pat_binds(p_)]
+                cs = conjuncts_of(clo["body"])
+                for c in cs:
+                    t = rule_test(c, lambda x: H.kind(H.strip(x)) == "MethodCall" and H.strip(x)["name"] == "as_rule" and H.path_local(H.strip(x)["recv"]) in ps)
+                    if t is not None and t[1]:
+                        return set(t[0])
+                return self.pair(e["recv"], path, depth + 1)
+            if e["name"] == "and_then" and e.get("args") and H.kind(H.strip(e["args"][0])) == "Closure":
+                clo = H.strip(e["args"][0])
+                ps = [bn for p_ in clo.get("params", []) for bn in H.pat_binds(p_)]
+                outer = self.pair(e["recv"], path, depth + 1)
+                if outer is None or len(ps) != 1:
+                    return None
+                # |x| x.into_inner().next(): the first child of x
+                b_ = H.strip(clo["body"])
+                if H.kind(b_) == "MethodCall" and b_["name"] == "next" and H.kind(H.strip(b_["recv"])) == "MethodCall" and H.strip(b_["recv"])["name"] == "into_inner" and H.path_local(H.strip(b_["recv"])["recv"]) == ps[0]:
+                    got = set()
+                    for r in outer:
+                        at = self.G.child_at(r, 0) if r in self.G.rules else None
+                        if at is None:
+                            return None
+                        got |= at
+                    return got
+                return None
+            if e["name"] == "next":
+                pos = self.position(e["recv"], path, depth + 1)
+                if pos is not None:
+                    got = set()
+                    for r in pos[0]:
+                        at = self.G.child_at(r, pos[1]) if r in self.G.rules else None
+                        if at is None:
+                            got = None
+                            break
+                        got |= at
+                    if got is not None:
+                        return got
+            if e["name"] in NEXT_LIKE:
+                return self.elements(e["recv"], path, depth + 1)
+            return None
+        if k == "Try":
+            return self.pair(e["e"], path, depth + 1)
+        return None
+
+    def _pair_of_binding(self, l, path, depth):
+        if True:
             b = self.binding(l, path)
             if b is None:
                 return None
@@ -415,27 +549,6 @@ class Resolver:
                 # `if let Some(p) = it.next()` / `match it.next() { Some(p) => .. }`
                 return self.pair(b[1], b[2], depth + 1)
             return None
-        if k == "MethodCall":
-            if e["name"] in PAIR_PASS:
-                return self.pair(e["recv"], path, depth + 1)
-            if e["name"] == "next":
-                pos = self.position(e["recv"], path, depth + 1)
-                if pos is not None:
-                    got = set()
-                    for r in pos[0]:
-                        at = self.G.child_at(r, pos[1]) if r in self.G.rules else None
-                        if at is None:
-                            got = None
-                            break
-                        got |= at
-                    if got is not None:
-                        return got
-            if e["name"] in NEXT_LIKE:
-                return self.elements(e["recv"], path, depth + 1)
-            return None
-        if k == "Try":
-            return self.pair(e["e"], path, depth + 1)
-        return None
 
     # ---- enum locals
     def enum_possible(self, local, enum_def, path):
@@ -684,3 +797,79 @@ def typestate(cr, crates, method, field, bad_variants):
                             leaks.append("%s passes the result of %s to %s (%s)" % (name.replace("blots_core::", ""), H.last(r[1]), callee.replace("blots_core::", ""), g.loc(b)))
             n_sites += len(g.calls_to(next(iter(bad)))) if bad else 0
     return (not leaks), "kinds %s are built only by %s; results flowing into something other than a constructor of the same type: %s" % (sorted(bad_variants), sorted(x.replace("blots_core::", "") for x in bad), sorted(set(leaks))[:3] or "none")
+
+
+def pratt_nonempty(ctx, rid, crates, G):
+    """pest's PrattParser::parse panics on an empty pair sequence: every sequence handed to the AST builder comes from a pair
+    whose grammar rule always has a child left at that position"""
+    ctx.rule(rid, "the Pratt parser never receives an empty pair sequence: every `x.into_inner()` handed to the AST builder (directly or through evaluate_pairs / pairs_to_expr*) comes from a pair kind that always has a child there (a comment or another childless pair would make pest panic with 'Pratt parsing expects non-empty Pairs')", floor=10)
+    from rules.c01 import mandatory_children
+    core = crates[0]
+    # sinks: the function that calls PrattParser::parse on its parameter, and the functions that pass their own parameter on to a sink
+    sinks = {}
+    for name, f in core.hir.items():
+        if f.get("body") is None or "::tests::" in name:
+            continue
+        for i, (p, t) in enumerate(zip(f.get("params", []), f.get("inputs", []))):
+            if "pest::iterators::pairs::Pairs" not in t:
+                continue
+            pn = (H.pat_binds(p) or [None])[0]
+            for x in H.walk(f["body"]):
+                if H.kind(x) == "MethodCall" and x["name"] == "parse" and "PrattParser" in (x.get("def") or "") + (x.get("impl_self") or "") + (x.get("recv_ty") or "") and x.get("args") and H.path_local(x["args"][0]) == pn:
+                    sinks[name] = i
+    if not sinks:
+        # the parse call sits at the end of a builder chain: `PRATT.map_primary(..)...parse(pairs)`
+        for name, f in core.hir.items():
+            if f.get("body") is None or "::tests::" in name:
+                continue
+            for i, (p, t) in enumerate(zip(f.get("params", []), f.get("inputs", []))):
+                if "pest::iterators::pairs::Pairs" not in t:
+                    continue
+                pn = (H.pat_binds(p) or [None])[0]
+                for x in H.walk(f["body"]):
+                    if H.kind(x) == "MethodCall" and x["name"] == "parse" and x.get("args") and H.path_local(x["args"][0]) == pn and any(H.kind(y) == "MethodCall" and y["name"] == "map_primary" for y in H.walk(x["recv"])):
+                        sinks[name] = i
+    changed = True
+    while changed:
+        changed = False
+        for c in crates:
+            for name, f in c.hir.items():
+                if f.get("body") is None or name in sinks or "::tests::" in name:
+                    continue
+                for i, (p, t) in enumerate(zip(f.get("params", []), f.get("inputs", []))):
+                    if "pest::iterators::pairs::Pairs" not in t:
+                        continue
+                    pn = (H.pat_binds(p) or [None])[0]
+                    for x in H.walk(f["body"]):
+                        if H.kind(x) == "Call" and x.get("def") in sinks and len(x["args"]) > sinks[x["def"]] and H.path_local(x["args"][sinks[x["def"]]]) == pn:
+                            sinks[name] = i
+                            changed = True
+    if not sinks:
+        ctx.inst(rid, "sinks", None, "the call of PrattParser::parse on a parameter was not found", None)
+        return
+    n = 0
+    for c in crates:
+        for name, f in sorted(c.hir.items()):
+            if f.get("body") is None or "::tests::" in name or "parse::rules" in name:
+                continue
+            k_ = 0
+            for call, path in sites_with_path(f["body"], lambda z: H.kind(z) == "Call" and z.get("def") in sinks):
+                idx = sinks[call["def"]]
+                if idx >= len(call["args"]):
+                    continue
+                arg = call["args"][idx]
+                if name in sinks and H.path_local(arg) == (H.pat_binds(f["params"][sinks[name]]) or [None])[0]:
+                    continue  # passes its own parameter on: judged at its callers
+                R = Resolver(c, G, f)
+                R.all_crates, R.fn_name, R.pratt, R.site_path = crates, name, None, path
+                pos = R.position(arg, path)
+                key = "%s->%s#%d" % (name.replace("blots_core::", ""), H.last(call["def"]), k_)
+                k_ += 1
+                n += 1
+                if pos is None:
+                    ctx.inst(rid, key, None, "the pair whose children are handed over was not resolved", H.loc(call))
+                    continue
+                parents, index = pos
+                short = sorted(r for r in parents if r in G.rules and mandatory_children(G, r) <= index)
+                ctx.inst(rid, key, not short, "children of %s from position %d; kinds that can have no child there: %s" % (sorted(parents), index, short or "none"), H.loc(call))
+    ctx.units["pratt_entry_sites"] = n
